@@ -384,6 +384,13 @@ func checkMain(args []string) int {
 			report(r.Name, fmt.Sprintf("panic-freedom obligation of a nopanic function is %s (%s)", r.Result, r.Solver), r)
 			continue
 		}
+		if r.Result == "sat" && (r.Kind == "loop-preserve" || r.Kind == "loop-init" || r.Kind == "mon-inv") {
+			// a NEW instance of a clause the baseline already claims (the same invariant on a path
+			// or back edge that did not exist before) that has a counter-model: the claimed
+			// clause no longer holds for the edited code
+			report(r.Name, fmt.Sprintf("claimed invariant fails on a path that is new in this tree: %s (%s)", r.Result, r.Solver), r)
+			continue
+		}
 		if r.Result == "sat" {
 			// only a reproduced failure counts; otherwise undecided
 			rp, reproduced := replayViolation(id, r.Name, "new obligation not in baseline fails", r, *repo)
@@ -667,6 +674,9 @@ func runSelftest(id string, cfg *PropConfig, repo string, timeoutS int) (map[str
 			got[r.Name] = true
 			if !r.Canary && inBase[r.Name] && r.Result != "unsat" {
 				failed = append(failed, r.Name+"="+r.Result)
+			} else if !r.Canary && !inBase[r.Name] && r.Result == "sat" && (r.Kind == "loop-preserve" || r.Kind == "loop-init" || r.Kind == "mon-inv") {
+				// same rule as the check: a new instance of a claimed invariant with a counter-model
+				failed = append(failed, r.Name+"=sat(new instance of a claimed invariant)")
 			}
 		}
 		for n := range inBase {
